@@ -197,9 +197,21 @@ class SummationGraderBase(AbstractGrader, MathMixin):
         structured_input = self.structure_and_validate_input(student_input)
         for key in structured_input:
             if structured_input[key] == '':
+                if self.true_input_positions[key] is None:
+                    # This field is not entered by the student: the author's answer is blank
+                    msg = "There is a problem with the author's stored answer: {key} is empty."
+                    raise ConfigError(msg.format(key=key))
                 msg = "Please enter a value for {key}, it cannot be empty."
                 raise MissingInput(msg.format(key=key))
-        self.validate_user_dummy_variable(structured_input[self.wording['adjective'] + '_variable'])
+        variable_key = self.wording['adjective'] + '_variable'
+        try:
+            self.validate_user_dummy_variable(structured_input[variable_key])
+        except InvalidInput as error:
+            if self.true_input_positions[variable_key] is None:
+                # The variable comes from the author's answer, not from the student
+                msg = "There is a problem with the author's stored answer: {}"
+                raise ConfigError(msg.format(str(error)))
+            raise
 
         # Now perform the computations
         try:
